@@ -77,6 +77,10 @@ def visited_fields(term, method_names):
         if isinstance(s, tuple) and s[:1] == ("call",) and s[1].split("::")[-1] in method_names:
             for a in s[2]:
                 out |= fields_of(a)
+        # the collector handed over as a function value: `self.terms.iter().flat_map(GeneralTerm::symbols)`
+        if isinstance(s, tuple) and s[:1] == ("call",) and len(s) == 3 and s[1] in ("Iterator::map", "Iterator::flat_map", "Iterator::for_each", "Iterator::filter_map") and len(s[2]) == 2 \
+                and isinstance(s[2][1], tuple) and s[2][1][:1] == ("fn",) and str(s[2][1][1]).split("::")[-1] in method_names:
+            out |= fields_of(s[2][0])
     return out
 
 
